@@ -174,7 +174,7 @@ def probes_c07(tr, sc):
 def oracle_c06(tr, sc):
     ctx, res = tr.ctx, tr.res
     cfg = sc['config']
-    t0, Tend, P = cfg['run']['t0'], cfg['run']['Tend'], cfg['P']
+    t0, Tend, P = getattr(tr, 't0', cfg['run']['t0']), getattr(tr, 'Tend', cfg['run']['Tend']), cfg['P']
     V = lambda clause, site, detail, **ident: res.violate('C06', clause, site, detail, ident=ident)  # noqa: E731
     aborted = tr.exc is not None
     if aborted and tr.exc[0] == 'StepCapExceeded':
@@ -287,6 +287,8 @@ def probes_c06(tr, sc):
             ends.setdefault(fbits(a['t'] + a['dt']), set()).add(fbits(a['t']))
     if any(len(v) > 1 for v in ends.values()):
         res.probe('two_steps_same_end_time')
+    if res['faults'].get('force_done'):
+        res.probe('forced_stop_on_later_step')
 
 
 # =========================================================================================================== C14
